@@ -557,7 +557,7 @@ func TestC02(t *testing.T) {
 	rep.Extra["real_scale_accepted"] = acceptedReal
 	rep.Extra["bounds"] = fmt.Sprintf("files<=%d len<=%d pl<=%d blocksize 1..4; real-scale n<=2 len<=%d*16K", maxFiles, maxLen, maxPL, maxRealLen)
 	if accepted == 0 || acceptedReal == 0 {
-		core.HarnessError("vacuous: no accepted layouts")
+		c.rep.Vacuous("vacuous: no accepted layouts")
 	}
 	createRoundTrip(c, rep)
 	rep.Finish()
